@@ -910,6 +910,9 @@ func (p *Posix) fileToObjVersions(bucket string) backend.GetVersionsFunc {
 		if err == nil {
 			versionId = string(versionIdBytes)
 		}
+		// a stored version with the id of the current version is a copy an
+		// interrupted overwrite left behind, not another version
+		curVersionId := versionId
 		if !*pastVersionIdMarker && versionId == versionIdMarker {
 			// the listing resumes after the marker version
 			*pastVersionIdMarker = true
@@ -1002,7 +1005,15 @@ func (p *Posix) fileToObjVersions(bucket string) backend.GetVersionsFunc {
 		if err != nil && !errors.Is(err, fs.ErrNotExist) {
 			return nil, err
 		}
-		if err == nil {
+		if err == nil && curVersionId == nullVersionId {
+			// stale copy of the current (null) version
+			if len(dirEnts) == 1 {
+				return &backend.ObjVersionFuncResult{
+					ObjectVersions: objects,
+					DelMarkers:     delMarkers,
+				}, nil
+			}
+		} else if err == nil {
 			isDel, err := p.isObjDeleteMarker(versionPath, nullVersionId)
 			if err != nil {
 				return nil, err
@@ -1135,6 +1146,9 @@ func (p *Posix) fileToObjVersions(bucket string) backend.GetVersionsFunc {
 			}
 			versionId := f.Name()
 			size := f.Size()
+			if versionId == curVersionId {
+				continue
+			}
 
 			if !*pastVersionIdMarker {
 				if versionId == versionIdMarker {
@@ -3294,6 +3308,9 @@ func (p *Posix) DeleteObject(ctx context.Context, input *s3.DeleteObjectInput) (
 				if err != nil {
 					return nil, fmt.Errorf("remove obj version: %w", err)
 				}
+				// a copy of this version left behind by an interrupted
+				// overwrite goes with it
+				os.Remove(filepath.Join(versionPath, *input.VersionId))
 
 				ents, err := os.ReadDir(versionPath)
 				if errors.Is(err, fs.ErrNotExist) {
